@@ -148,13 +148,13 @@ def run(ctx):
             env.orc = oracle.Oracle(env.b.measured, env.b.decls, env.b.scales)
             env.pools = gen.Pools(env.b, env.mdl, env.orc)
         ctx.count("staged_import_stages")
-        one_configuration(ctx, env, list(imported), 0, 1, label=f"staged:{'+'.join(imported)}", products=ctx.scale(3000, 300_000) // len(stages))
+        one_configuration(ctx, env, list(imported), 0, 1, label=f"staged:{'+'.join(imported)}", products=ctx.scale(3000, 300_000) // len(stages), last=(k == len(stages) - 1))
     for e in ctx.known:
         if e.get("status") == "known":
             ctx.witness(e["key"], ctx.known_hits.get(e["key"], 0) > 0)
 
 
-def one_configuration(ctx, env, config, part, parts, label=None, products=None):
+def one_configuration(ctx, env, config, part, parts, label=None, products=None, last=True):
     m, mdl, pools, rng, orc = env.m, env.mdl, env.pools, ctx.rng, env.orc
     Unit, Q = m.Unit, m.Quantity
     from measured import formatting
@@ -398,6 +398,65 @@ def one_configuration(ctx, env, config, part, parts, label=None, products=None):
             if v_ is not u_ or q2.unit is not u_ or not (q2 == q_):
                 ctx.violation("C13:parses-to-a-different-unit", f"after {built} other units were built, str(unit) = {s_!r} reads back as another object than the unit in use "
                               f"(quantity equal: {q2 == q_})", {"str": s_})
+    if last:   # (these declarations make texts ambiguous on purpose: nothing else is rendered or parsed after them in this process)
+        # ---- what a text means follows the registries as they are NOW: a text that read as prefix + symbol is given to a unit as
+        # its own symbol (alias), a prefix that splits an already-read text sooner is registered, a prefix that was anonymous when
+        # its units were first rendered gets a symbol - each time the same texts are read (and the same units rendered) again
+        def _alpha(k):
+            out = ""
+            while True:
+                out = "abcdefghijklmnopqrstuvwxyz"[k % 26] + out
+                k //= 26
+                if not k:
+                    return out
+        import zlib
+        salt = zlib.crc32(cfg_name.encode()) % 5000
+        tag_ = "zq" + _alpha(ctx.shard * 1000003 + part * 5003 + salt)      # letters only: the grammar's symbols have no digits
+        e_ = 11 + (ctx.shard * 7 + part * 3 + salt) % 23
+        if own and f"{tag_}ta" not in Unit._by_symbol and m.Prefix(7, e_).name is None and m.Prefix(7, e_ + 30).name is None and m.Prefix(7, e_ + 60).name is None:
+            pname, p = own[0]
+            ua = Unit.define(m.Length, f"{tag_}unit-a", f"{tag_}ta")
+            ub = Unit.define(m.Time, f"{tag_}unit-b", f"{tag_}tb")
+            text = f"{p.symbol}{tag_}ta"
+            try:
+                first = Unit.parse(text)
+                q_first = Q.parse(f"3 {text}")
+            except (ParseError, KeyError):
+                first = None
+            if first is not None:
+                ctx.count("texts_read_before_they_became_a_symbol")
+                ub.alias(symbol=text)
+                for label, got in (("Unit.parse", Unit.parse(text)), ("Unit.parse(str(unit))", Unit.parse(str(ub))), ("Quantity.parse", Q.parse(f"3 {text}").unit),
+                                   ("Quantity.parse(str(quantity))", Q.parse(str(Q(3, ub))).unit)):
+                    if got is not ub:
+                        ctx.violation("C13:parses-to-a-different-unit", f"{text!r} was read as {first!r} before it became a symbol of {ub!r} (Unit.alias); afterwards {label} gives {got!r}",
+                                      {"text": text, "how": label})
+            # a shorter prefix registered later splits a text that was read before
+            v_sym = f"v{tag_}ta"
+            uv = Unit.define(m.Length, f"{tag_}unit-v", v_sym)
+            long_sym, short_sym = f"{tag_}jv", f"{tag_}j"
+            p_long = m.Prefix(7, e_, f"{tag_}long", long_sym)
+            text2 = f"{long_sym}{tag_}ta"            # long prefix + unit a  ==  short prefix + unit v ("...jv" + "ta" vs "...j" + "vta")
+            try:
+                before = Q.parse(f"3 {text2}")
+            except (ParseError, KeyError):
+                before = None
+            if before is not None and before.unit is p_long * ua:
+                ctx.count("texts_read_before_a_shorter_prefix_was_registered")
+                p_short = m.Prefix(7, e_ + 30, f"{tag_}short", short_sym)
+                want_u = Unit.parse(text2)
+                rendered = str(Q(3, p_short * uv))
+                got_q = Q.parse(rendered)
+                if rendered == f"3 {text2}" and (want_u is not p_short * uv or got_q.unit is not p_short * uv):
+                    ctx.violation("C13:quantity-parses-to-a-different-value", f"str(3 * ({short_sym}*{v_sym})) = {rendered!r}; Unit.parse reads the unit as {want_u!r}, Quantity.parse reads "
+                                  f"{got_q!r} - the text was first read before the prefix {short_sym!r} was registered", {"text": rendered})
+            # rendered while its prefix was anonymous, rendered again after the prefix got its symbol
+            anon = m.Prefix(7, e_ + 60)
+            x_ = anon * ua
+            early = str(x_)
+            m.Prefix(anon.base, anon.exponent, f"{tag_}late", f"{tag_}lt")
+            ctx.count("units_rendered_before_their_prefix_got_a_symbol")
+            roundtrip_unit(x_, f"(a prefix declared after {early!r} was rendered)*{tag_}unit-a")
     for e in ctx.known:
         if e.get("status") == "known":
             ctx.witness(e["key"], ctx.known_hits.get(e["key"], 0) > 0)
